@@ -7,9 +7,12 @@ import (
 	"net"
 	"sort"
 	"strings"
+	"sync"
 	"time"
 
 	dht "github.com/anacrolix/dht/v2"
+	"github.com/anacrolix/dht/v2/krpc"
+	peer_store "github.com/anacrolix/dht/v2/peer-store"
 )
 
 func init() {
@@ -125,7 +128,7 @@ func (sc *srvScen) tokenGrid(other *srvScen) {
 // ---------------- C11: announce / get_peers ----------------
 
 func runC11(r *Run) {
-	r.Result.Rule = "scenario = server with the bundled in-memory peer store (wrapped by a recorder); announces with ports 1..65535, implied_port on/off, missing port, IPv4/IPv6/v4-mapped sources (same IP re-announcing, both representations of one IPv4), several infohashes, interleaved with get_peers carrying every want combination from either family; non-trivial = get_peers reply that carries values"
+	r.Result.Rule = "scenario = server with the bundled in-memory peer store (wrapped by a recorder); announces with ports 1..65535, implied_port on/off, missing port, IPv4/IPv6/v4-mapped sources (same IP re-announcing, both representations of one IPv4), several infohashes, interleaved with get_peers; bursts of first announces for a brand-new infohash delivered back to back (stores overlap) and concurrent first stores on the bundled peer store directly; carrying every want combination from either family; non-trivial = get_peers reply that carries values"
 	n := r.n(40, 800)
 	for i := 0; i < n; i++ {
 		sc := r.newSrvScen(srvOpts{noSecurity: true, peerStore: true, callback: i%3 == 0})
@@ -136,6 +139,105 @@ func runC11(r *Run) {
 		}
 		sc.close()
 	}
+	for i := 0; i < r.n(40, 600); i++ {
+		r.c11Burst(i)
+	}
+	r.c11StoreRace(r.n(4000, 80000))
+}
+
+// First announces for a brand-new infohash arriving back to back from several addresses: the handler
+// stores each one on its own goroutine, so the stores overlap. Every accepted announce must be
+// returned by a later get_peers.
+func (r *Run) c11Burst(i int) {
+	sc := r.newSrvScen(srvOpts{noSecurity: true, peerStore: true, mute: true})
+	defer sc.close()
+	k := 2 + r.rng.Intn(5)
+	type ann struct {
+		src  *net.UDPAddr
+		port int
+		raw  []byte
+	}
+	for round := 0; round < 6; round++ {
+		ih := r.randID()
+		var as []ann
+		for j := 0; j < k; j++ {
+			// distinct IPs: the store keeps one endpoint per IP
+			src := udp(net.IP{198, 18, byte(round*8 + j), byte(1 + i%250)}, 2000+j)
+			id := r.randID()
+			tok := sc.fetchToken(src, id)
+			q := sc.mkQuery("announce_peer", id, ih)
+			q.t = []byte(fmt.Sprintf("b%d", j))
+			q.ro = true
+			q.token, q.hasTok = tok, tok != nil
+			p := int64(1 + r.rng.Intn(65535))
+			q.port = &p
+			q.implied = false
+			as = append(as, ann{src, int(p), q.bval().enc()})
+		}
+		sc.conn.waitIdle(time.Second)
+		w0 := sc.conn.numWrites()
+		a0 := sc.ps.numAdds()
+		for _, a := range as {
+			sc.conn.inject(a.raw, a.src)
+		}
+		sc.events = []string{fmt.Sprintf("%d announce_peer for the new infohash %x delivered back to back from %d addresses", k, ih[:4], k)}
+		if !sc.conn.waitWrites(w0+k, 5*time.Second) || !waitFor(func() bool { return sc.ps.numAdds() >= a0+k }, 5*time.Second) {
+			sc.viol("C11", "announce_peer with a fresh token was not accepted")
+			return
+		}
+		accepted := 0
+		for _, w := range sc.conn.writes()[w0:] {
+			if d := parseDgram(w); d.ok && d.y == "r" {
+				accepted++
+			}
+		}
+		got := map[string]bool{}
+		for _, p := range sc.ps.inner.GetPeers(ih) {
+			got[hx(p.IP.To16())+"/"+itoa(p.Port)] = true
+		}
+		missing := 0
+		for _, a := range as {
+			if !got[hx(a.src.IP.To16())+"/"+itoa(a.port)] {
+				missing++
+			}
+		}
+		r.hist(fmt.Sprintf("burst-announce/k=%d", k))
+		r.count(fmt.Sprintf("burst/%d/%d/%d", i, round, k), true)
+		if accepted == k && missing > 0 {
+			sc.viol("C11", fmt.Sprintf("%d announces for a new infohash were acknowledged, %d of their endpoints are not returned afterwards", k, missing))
+			return
+		}
+	}
+	r.Result.TracesValidated++
+}
+
+// The bundled peer store on its own: concurrent first stores for one new infohash.
+func (r *Run) c11StoreRace(rounds int) {
+	var st peer_store.InMemory
+	lost := 0
+	for i := 0; i < rounds && lost == 0; i++ {
+		ih := peer_store.InfoHash(r.randID())
+		k := 2 + i%3
+		start := make(chan struct{})
+		var wg sync.WaitGroup
+		for j := 0; j < k; j++ {
+			wg.Add(1)
+			na := krpc.NodeAddr{IP: net.IP{10, byte(i >> 16), byte(i >> 8), byte(j + 1)}, Port: 1000 + j}
+			go func() {
+				defer wg.Done()
+				<-start
+				st.AddPeer(ih, na)
+			}()
+		}
+		close(start)
+		wg.Wait()
+		if n := len(st.GetPeers(ih)); n != k {
+			lost++
+			r.violation(fmt.Sprintf("%d announces for a new infohash were acknowledged, %d of their endpoints are not returned afterwards (peer store, concurrent first stores)", k, k-n), map[string]interface{}{"round": i, "infohash": hx(ih[:])})
+		}
+	}
+	r.hist("store-race/rounds")
+	r.count("store-race", true)
 }
 
 func (sc *srvScen) announceHistory(n int) {
